@@ -919,6 +919,59 @@ def sumKey (f : Pos → Nat) (il cl : Bool) : List Pos → Nat
   | [] => 0
   | p :: ps => (if p.isLong = il ∧ p.collLong = cl then f p else 0) + sumKey f il cl ps
 
+/-! ### token flows of a history (C08) -/
+
+/-- the fields the token ledger reads are unchanged. -/
+def sameLedgerB (a b : Market) : Bool :=
+  a.primary == b.primary && a.swapImpact == b.swapImpact && a.fee == b.fee && a.collL == b.collL && a.collS == b.collS
+
+/-- `n` if `a = il`, else `0` (an amount of the token selected by `a`). -/
+def tokAmt (a il : Bool) (n : Nat) : Nat := if a = il then n else 0
+
+/-- token flows of one operation, per pool token: tokens paid in, tokens paid out (output,
+secondary output, claimable collateral), funding fee charged, and whether an insufficient funding
+payment was reported. -/
+structure Flow where
+  inn : Bool → Nat := fun _ => 0
+  out : Bool → Nat := fun _ => 0
+  fund : Bool → Nat := fun _ => 0
+  short : Bool := false
+  /-- a decrease with different pnl / collateral tokens happened (fee dust possible) -/
+  mixed : Bool := false
+
+/-- one operation of a position history with its token flows. Other market operations must keep
+the ledger fields (fee-state updates, clock); deposits / withdrawals / swaps are C04–C06. -/
+def PSys.stepF (W U : Nat) (c : PerpCfg) (s : PSys) : POp → PSys × Flow
+  | .openPos il cl => ({ s with ps := s.ps ++ [{ isLong := il, collLong := cl }] }, {})
+  | .inc i coll size pr =>
+    match s.ps[i]? with
+    | none => (s, {})
+    | some p => match increase W U s.m c pr p coll size with
+      | .ok (m', p', r) => ({ m := m', ps := s.ps.set i p' },
+          { inn := fun t => tokAmt p.collLong t coll, fund := fun t => tokAmt p.collLong t r.fees.fundAmount })
+      | .error _ => (s, {})
+  | .dec i size wd fl pr =>
+    match s.ps[i]? with
+    | none => (s, {})
+    | some p => match decrease W U s.m c pr p size wd fl with
+      | .ok (m', p', r) => ({ m := m', ps := s.ps.set i p' },
+          { out := fun t => tokAmt p.collLong t (r.output + r.holdOut + r.userOut) + tokAmt p.isLong t (r.secondary + r.holdSec + r.userSec),
+            fund := fun t => tokAmt p.collLong t r.fees.fundAmount, short := r.fundingShort,
+            mixed := p.isLong != p.collLong })
+      | .error _ => (s, {})
+  | .market m' => (if sameBookB s.m m' && sameLedgerB s.m m' then { s with m := m' } else s, {})
+
+def Flow.add (a b : Flow) : Flow :=
+  { inn := fun t => a.inn t + b.inn t, out := fun t => a.out t + b.out t, fund := fun t => a.fund t + b.fund t,
+    short := a.short || b.short, mixed := a.mixed || b.mixed }
+
+def PSys.runF (W U : Nat) (c : PerpCfg) (s : PSys) : List POp → PSys × Flow
+  | [] => (s, {})
+  | o :: os =>
+    let (s1, f1) := s.stepF W U c o
+    let (s2, f2) := PSys.runF W U c s1 os
+    (s2, f1.add f2)
+
 /-! ### the store's guard around a decrease order (`programs/store/src/ops/order.rs`,
 `execute_decrease_position`: liquidation must be a full close; ADL must be required, must
 strictly lower the pnl factor and must not push it below `MinAfterAdl`). *Modelled*: transcribed
